@@ -5,6 +5,7 @@ import Parmcb.Model.Signed
 import Parmcb.Model.Spanner
 import Parmcb.Model.Lex
 import Parmcb.Model.Iso
+import Parmcb.Model.TreeCheck
 import Parmcb.Driver.Proto
 /-! correspondence handlers for the graph algorithms (C16, C13, C01/C02 …) -/
 namespace Parmcb.Driver
@@ -249,28 +250,42 @@ def showOptNats (l : List (Option Nat)) : String :=
 def showOptInts (l : List (Option Int)) : String :=
   " ".intercalate (l.map fun | some x => toString x | none => "-")
 
-/-- C12: the shortest-path tree of every source, compared field by field -/
+def parseOptInts (ws : List String) : List (Option Int) := ws.map fun w => if w == "-" then none else w.toInt?
+def parseOptNats (ws : List String) : List (Option Nat) := ws.map fun w => if w == "-" then none else w.toNat?
+
+/-- C12: the shortest-path tree of every source: literal comparison with the model AND the proved
+certificates (`checkSPT`, `checkFirst`, `checkConsistent`) run on the IMPLEMENTATION's trees -/
 def handleTrees (c : Case) : String := Id.run do
   match parseGraph c.body with
   | none => return s!"diff {c.id} parse-graph"
   | some (g, rest) =>
     let mut cur := rest
     let mut cnt := 0
+    let mut implTrees : List SPTree := []
+    let mut firstDiff : Option String := none
     while true do
       match cur with
       | ["tree", s] :: ("dist" :: ds) :: ("pred" :: ps) :: ("first" :: fs) :: r =>
         let s := s.toNat!
+        let ti : SPTree := { source := s, dist := parseOptInts ds, pred := parseOptNats ps, first := (natsOf fs).getD [] }
+        implTrees := implTrees ++ [ti]
+        if !(checkSPT g ti) then return s!"viol {c.id} tree {s} fails-the-shortest-path-certificate"
+        if !(checkFirst g ti) then return s!"viol {c.id} tree {s} first-in-path-labels-wrong"
         let t := buildTree g s
-        if showOptInts t.dist != " ".intercalate ds then
-          return s!"diff {c.id} tree {s} dist model=[{showOptInts t.dist}] impl=[{" ".intercalate ds}]"
-        if showOptNats ((List.range g.n).map fun v => t.pred.getD v none) != " ".intercalate ps then
-          return s!"diff {c.id} tree {s} pred model=[{showOptNats t.pred}] impl=[{" ".intercalate ps}]"
-        if showNats t.first != " ".intercalate fs then
-          return s!"diff {c.id} tree {s} first model=[{showNats t.first}] impl=[{" ".intercalate fs}]"
+        if firstDiff.isNone then
+          if showOptInts t.dist != " ".intercalate ds then
+            firstDiff := some s!"diff {c.id} tree {s} dist model=[{showOptInts t.dist}] impl=[{" ".intercalate ds}]"
+          else if showOptNats ((List.range g.n).map fun v => t.pred.getD v none) != " ".intercalate ps then
+            firstDiff := some s!"diff {c.id} tree {s} pred model=[{showOptNats t.pred}] impl=[{" ".intercalate ps}]"
+          else if showNats t.first != " ".intercalate fs then
+            firstDiff := some s!"diff {c.id} tree {s} first model=[{showNats t.first}] impl=[{" ".intercalate fs}]"
         cur := r; cnt := cnt + 1
       | _ => break
     if cnt != g.n then return s!"diff {c.id} tree-count {cnt}"
-    return s!"ok {c.id} {g.n} {g.m} {cnt}"
+    if !(checkConsistent g implTrees) then return s!"viol {c.id} trees-not-mutually-consistent"
+    match firstDiff with
+    | some d => return d
+    | none => return s!"ok {c.id} {g.n} {g.m} {cnt}"
 
 def showCands (l : List Cand) : List String := l.map fun c => s!"{c.tree} {c.edge} {c.weight}"
 
